@@ -15,7 +15,7 @@ inductive WFrame where
   | message (payload : Bytes)
   | batch (payload : Bytes)
   | other                      -- any frame kind a subscriber does not expect: it ends the stream
-  deriving Repr
+  deriving Repr, DecidableEq
 
 structure Pub where
   /-- `Some(batch)` when batching is configured: the encoded messages collected so far, oldest first -/
